@@ -136,8 +136,8 @@ func (nd *NdArrayTypeCommon) Len3() int {
 func (nd *NdArrayTypeCommon) SliceInto(dest *NdArrayTypeCommon, loc []int, dims []int, step []int) {
 	dest.OriginalDims = nd.OriginalDims
 	dest.Dims = dims
-	dest.Start = nd.Start + dotProduct(loc, nd.Offset)
-	dest.Offset = Multiply(nd.Offset, nd.Step)
+	dest.Start = nd.Start + dotProduct(loc, nd.OffsetStep)
+	dest.Offset = nd.Offset
 
 	if step == nil {
 		dest.Step = nd.Step
